@@ -15,6 +15,8 @@ EXCLUDE = (r"fmt$|Visitor|serde|Deserialize|Serialize|::hash$|ops::Index(Mut)?<u
            r"group::ff::Field>::(sqrt|sqrt_ratio|random)$|::random$|Group>::random$|PrimeFieldBits")
 # reviewed residuals: obligations the interval domain cannot discharge, each with its reason (keys have no line numbers)
 RESIDUALS = [
+    (r"field::<impl .*FieldElement\w+>::batch_invert$", r"^call:panic$", r"acc\.is_zero",
+     "assert!(!acc.is_zero()): acc is the product of the inputs with zeros skipped, so it is never zero (algebraic fact, not an interval fact)"),
     (r"window::NafLookupTable\d::<T>::select$", r"^call:panic$", r"^adt\{\}, &\(\(tuple",
      "A4: debug_assert_eq!(x & 1, 1): non-zero NAF digits are odd (established by the parity test in non_adjacent_form; parity of array contents is outside the interval domain)"),
 ]
@@ -47,6 +49,18 @@ def check_cfg(F, R, cfg, backend):
     for f in sorted(roots, key=lambda f: f["key"]):
         D.run_root(f)
     R.floor("C11.roots", I("exported functions analysed as roots"), len(D.roots_run), 250)
+    # kernel contracts: the field kernels with their documented input bound (u64: limbs < 2^54; u32: b < 1.75) as precondition
+    n0 = len(D.roots_run)
+    kroots = D.root_candidates(r"^curve25519_dalek::backend::serial::(u64|u32)::field::", r"from_limbs|::add$|::add_assign$|fmt$|zeroize|::test", exported_only=False)
+    kroots = [f for f in kroots if re.match(r"(sub|sub_assign|neg|negate|mul|mul_assign|square|square2|pow2k|as_bytes|from_bytes|conditional_select|conditional_assign|conditional_swap)$", f.get("name") or "")
+              and not re.search(r"::(reduce|mul|pow2k|from_bytes|square_inner)::", f["key"])]
+    for f in sorted(kroots, key=lambda f: f["key"]):
+        ov = None
+        if f.get("name") == "pow2k":
+            from absint import I as _I
+            ov = {1: _I(1, 300)}
+        D.run_root(f, ov, check_ret=False)
+    R.floor("C11.roots", I("field kernels analysed with their documented precondition"), len(D.roots_run) - n0, 12)
     for f, why in D.errors:
         R.viol("C11.analysis", I(short(f)), "analysis did not complete: %s" % why, F.loc(f))
     n = 0
